@@ -189,6 +189,24 @@ UpdateBadArgs(m, which) ==
     /\ Tick /\ Log([a |-> "UpdateBadArgs", m |-> m, which |-> which]) /\ cfg[m] # NULL
     /\ err' = "ValueError" /\ UNCHANGED <<cfg, hist, nUpd, Fm, disk>>
 
+\* ---------------------------------------------------------------- client faults (C07)
+\* The callables the client hands over (velocity gradient, position, regime) may raise the client's own
+\* exception at any evaluation: the very first one, part-way through the interval, or just before its end.
+\* Wherever it happens the update fails and NOTHING moves: not the history ("a failed update leaves the
+\* mineral's stored history untouched"), not the regime (the regime callable returned the mineral's current
+\* regime until it raised), not the client's deformation gradient - and every later call behaves as if the
+\* faulted one had never been made (the content terms of later snapshots do not mention it).
+FaultCodes == {"first", "vgrad_mid", "vgrad_late", "pos_mid", "regime_mid"}
+UpdateFaulted(m, fl, par, fc) ==
+    /\ Tick /\ Log([a |-> "UpdateFaulted", m |-> m, fl |-> fl, par |-> par, fc |-> fc]) /\ cfg[m] # NULL
+    /\ Dispatch(cfg[m], cfg[m].regime, par) \in OkClasses      \* integrable up to the fault
+    /\ err' = "ClientFault" /\ UNCHANGED <<cfg, hist, nUpd, Fm, disk>>
+\* the same in a bulk update, raised while the FIRST mineral of the list is being integrated: no mineral moves
+UpdateAllFaulted(ms, fl, par, fc) ==
+    /\ Tick /\ Log([a |-> "UpdateAllFaulted", ms |-> ms, fl |-> fl, par |-> par, fc |-> fc])
+    /\ Len(ms) >= 1 /\ AllOk(ms, fl, par) /\ SameF(ms)
+    /\ err' = "ClientFault" /\ UNCHANGED <<cfg, hist, nUpd, Fm, disk>>
+
 \* ---------------------------------------------------------------- post-processing in the workflow (C10)
 \* voigt_averages over a sequence of minerals: accepted iff all have the same grain count, the same
 \* number of stored snapshots, and every mineral's phase is listed in the assemblage.  In particular a
